@@ -191,6 +191,11 @@ def same_value(a, b):
             # a Python float and numpy.float64 (a float subclass) are the same scalar kind (operators on Python floats
             # are routed through autograd.numpy and come back as float64); likewise complex / complex128
             ta, tb = _skind(a), _skind(b)
+            if ta == tb == "float64":
+                # scalar (not array) results: the plain value comes from CPython's / NumPy's *scalar* arithmetic (e.g. x ** y on
+                # floats or np.float64), under differentiation the same operator is routed through the ufunc loop; the two
+                # code paths of NumPy may differ in the last bit (observed for pow).  Arrays are compared bit-for-bit.
+                return a == b or (a != a and b != b) or abs(a - b) <= 4e-16 * abs(b)
             return ta == tb and (a == b or (a != a and b != b))
         except Exception:
             return False
